@@ -950,6 +950,10 @@ def run(ck):
                         " -- Gen/Prims.v kept as hand-written model, tie = correspondence only")
     res = vv.prove("Properties_C01", set())     # every theorem is closed under the global context
     ck.add_proof(res)
+    # cross-property links (C13: closure transfers to the machine; C03: equal pack => equal output);
+    # they mention binary64 operations through the other properties' definitions
+    res_links = vv.prove("Links_C01", vv.FLOCQ_AXIOMS)
+    ck.add_proof(res_links)
     if ck.thorough and not res["failure"]:
         ok, axioms, tail = vv.coqchk("Properties_C01")
         ck.coverage["coqchk"] = {"ok": ok, "axioms": axioms}
